@@ -275,6 +275,7 @@ PROPERTIES = {
         'technique': TECH,
     },
     'C13': {
+        'native_sweep': {'harness': 'po_replay', 'runs': [['getters'], ['roundtrip']], 'hdf5': True},
         'units': [io.ProgramOptionsSave, io.ProgramOptionsGetters],
         'lemmas': [],
         'level': 'other',
